@@ -1,3 +1,6 @@
 import CR.Model.Num
 import CR.Model.Rdfs
 import CR.Model.Solver
+import CR.Model.Gen
+import CR.Model.Validate
+import CR.Model.Batch
